@@ -472,7 +472,10 @@ func (s *Server) handleConnReceiver(module *Module, crd *rsyncwire.CountingReade
 		// Descend into subdirectory (if requested),
 		// using the os.OpenRoot traversal-safe API.
 		if len(paths) == 1 && paths[0] != "/" {
-			subdir := strings.TrimPrefix(paths[0], "/")
+			// Clean the path: with a trailing slash ("link/"), os.Root
+			// follows a symbolic link in the last path component even when
+			// it points outside the module.
+			subdir := filepath.Clean(strings.TrimPrefix(paths[0], "/"))
 			subRoot, err := rt.DestRoot.OpenRoot(subdir)
 			if err != nil {
 				if os.IsNotExist(err) {
